@@ -3,7 +3,8 @@
 Theorems: coq/Props/Properties_C02.v — the combination technique over a lower set is exact on the declared polynomial space for
 ANY one-dimensional operator family that is exact up to a monotone degree function (unbounded in dimension, set, degrees),
 for ANY commutative ring.  The one-dimensional exactness enters as a hypothesis that is CHECKED at run time through the
-multi-dimensional statement itself.  Direct evaluation on the implementation: every monomial of getGlobalPolynomialSpace(false)
+multi-dimensional statement itself; for interpolatory rules and any moment functional it is PROVED (degree < number of nodes,
+Proofs/InterpQuadExact.v), which makes c02_sparse_interpolatory_quadrature_exact_unbounded unconditional (not the Gauss rules).  Direct evaluation on the implementation: every monomial of getGlobalPolynomialSpace(false)
 is integrated by getQuadratureWeights() to its exact moment w.r.t. the rule's weight function (Global: all rules incl. the
 Gauss families with alpha/beta, Sequence; uniform-weight rules also under linear transforms), Fourier modes integrate exactly,
 weights sum to the measure, integrate() = weights . values."""
